@@ -89,6 +89,12 @@ class Log:
         return [e for e in self.items if e["kind"] == kind]
 
 
+def bot_token(cid, t, spec):
+    """the text the scripted LLM produces in turn t; `same_bot`: the very same text in every turn of the conversation
+    (the rails' verdicts still differ per turn: a rail may depend on more than the text)"""
+    return "BOT-%s-%s" % (cid, "S" if spec.get("same_bot") else t)
+
+
 class InjectedFault(RuntimeError):
     pass
 
@@ -210,7 +216,7 @@ class App:
 
     # ---- LLM script: a function of the prompt only
     def bot_text(self):
-        return "BOT-%s-%d" % (self.cid, self.turn)
+        return bot_token(self.cid, self.turn, self.spec)
 
     def _script(self, prompt):
         mode = self.spec.get("mode")
@@ -381,7 +387,7 @@ def model_turn(spec, app, t, orig_text, user_kind="llm", opts=None):
         res["reply"] = {"role": "assistant", "content": "FIXED-ANSWER"}
         res["skip_output"] = True
         return res
-    bot = "BOT-%s-%d" % (app.cid, t)
+    bot = bot_token(app.cid, t, spec)
     for i in (list(range(m)) + list(spec.get("dup_out") or [])) if m else []:
         res["exp_out"].append((i, bot))
         v = app.V.get(("out", t, i), "ok")
